@@ -113,7 +113,9 @@ def mk_seed(form, vals):
     if form == 'dict' and not any(v >= 0 for v in vals):
         form = 'list'          # get_values refuses an empty dict (np.min of an empty array): not a seed set
     if form == 'dict':
-        return {'form': 'dict', 'items': [[i, v] for i, v in enumerate(vals) if v >= 0]}
+        # a dict may also carry negative values (ignored by the library with a warning): keep the first one
+        neg = [i for i, v in enumerate(vals) if v < 0][:1] if len(vals) % 3 == 0 else []
+        return {'form': 'dict', 'items': [[i, v] for i, v in enumerate(vals) if v >= 0 or i in neg]}
     return {'form': form, 'vals': vals}
 
 
@@ -405,9 +407,9 @@ def _run_shard(overlay_root, todo, results, tag, budget):
         pos += 1
 
 
-def run_jobs(ctx, jobs):
+def run_jobs(ctx, jobs, root=None):
     import concurrent.futures
-    root = ctx.overlay_root if hasattr(ctx, 'overlay_root') else ctx.ctx.overlay_root
+    root = root or (ctx.overlay_root if hasattr(ctx, 'overlay_root') else ctx.ctx.overlay_root)
     results = [None] * len(jobs)
     k = max(1, min(N_WORKERS, len(jobs) // 20 + 1))
     shards = [[] for _ in range(k)]
@@ -450,7 +452,7 @@ def _has_unlabelled(job):
     nr, nc = g['shape']
     if job.get('labels') is not None:
         s = job['labels']
-        k = len(s['items']) if s['form'] == 'dict' else sum(1 for v in s['vals'] if v >= 0)
+        k = sum(1 for kv in s['items'] if kv[1] >= 0) if s['form'] == 'dict' else sum(1 for v in s['vals'] if v >= 0)
         return k < nr or nr != nc
     return True
 
@@ -920,6 +922,8 @@ def gen_jobs(ctx, scale=1.0, small_only=False):
         if t == 0:
             labels[0] = 10 ** 6       # far beyond any buffer sized by the number of nodes
         index = [i for i in range(n) if rng.random() < 0.7]
+        if index and rng.random() < 0.15:
+            index.append(rng.choice(index))      # a node visited twice in the same sweep
         rng.shuffle(index)
         jobs.append({'kind': 'vote', 'graph': g, 'labels': labels, 'index': index})
 
@@ -977,12 +981,39 @@ def corpus_jobs():
     return out
 
 
+def run_checked_build(ctx, jobs):
+    """Thorough tier: the kernel jobs once more on the bounds-checked build of the working tree (Cython boundscheck,
+    _GLIBCXX_ASSERTIONS): an access outside a buffer raises or aborts instead of passing silently."""
+    from vlib import overlay
+    root, info = overlay.sync('checked')
+    sel = [j for j in jobs if j['kind'] in ('vote', 'prop')]
+    results = run_jobs(ctx, sel, root=root)
+    plain = run_jobs(ctx, sel)
+    for job, res, ref in zip(sel, results, plain):
+        ctx.count('checked-build:' + job['kind'])
+        if res is None or res['status'] == 'skipped':
+            continue
+        bad = None
+        if res['status'] in ('crash', 'timeout'):
+            bad = 'the bounds-checked build %s' % ('aborted (%s)' % res.get('detail') if res['status'] == 'crash' else 'did not return')
+        elif res['status'] == 'err' and (ref is None or ref.get('status') != 'err'):
+            bad = 'the bounds-checked build raises %s: %s' % (res['err'], res.get('msg'))
+        elif res['status'] == 'ok' and ref is not None and ref.get('status') == 'ok' and res.get('labels') != ref.get('labels'):
+            bad = 'the bounds-checked build answers %s, the plain build %s' % (res.get('labels'), ref.get('labels'))
+        if bad:
+            ctx.case(('checked', json.dumps(job, sort_keys=True)), True)
+            ctx.spec_fail(dict(job_sig(job), failure='out-of-bounds'), job, {'what': bad})
+    ctx.extra['checked_build'] = {'jobs': len(sel), 'overlay': info}
+
+
 def run(ctx):
     Ties.skipped = 0
     jobs = corpus_jobs()
     ctx.count('corpus', len(jobs))
     jobs += gen_jobs(ctx, scale=1.0 if ctx.quick else 8.0)
     run_and_evaluate(ctx, jobs)
+    if not ctx.quick:
+        run_checked_build(ctx, jobs)
 
 
 def search(ctx, pending):
